@@ -1,4 +1,5 @@
 import LLRP.Proofs.ClientLive
+import LLRP.Gen.Chans
 /-!
 # C09 — close, shutdown, failure and cancellation never leave a caller stuck
 
@@ -290,6 +291,68 @@ theorem cancelled_reply_unsolicited {s : St} (h : Reachable s) (c : Nat) (r : Re
   refine ⟨hno, by rw [hd], by rw [hd], by rw [hd], ?_⟩
   rw [hd]; simp [step, enabled, eff]
 
+/-! ## channel capacities: the facts of the source the step function relies on -/
+
+/-- **Channel capacities.** The `make(chan …)` expressions of the source (regenerated into `Gen.chanMakes` on every run)
+have exactly the capacities the model's step function uses: the per-request reply channel 1 (`replyCap`), the token
+channel 1, Connect's `errs` 2 (`errsCap`), `sendQueue` 0 (rendezvous), `ackQueue` `ackQueueSz`; each is created at one
+place only. -/
+theorem chan_caps :
+    Gen.chanCapsOf "Client.handleOutgoing" "replyChan" = [replyCap] ∧
+    Gen.chanCapsOf "Client.send" "tokenChan" = [tokenCap] ∧
+    Gen.chanCapsOf "Client.Connect" "errs" = [errsCap] ∧
+    Gen.chanCapsOf "NewClient" "sendQueue" = [sendQueueCap] ∧
+    Gen.chanCapsOf "NewClient" "ackQueue" = [Gen.ackQueueSz] ∧
+    (Gen.chanMakes.filter (fun c => c.name == "replyChan" || c.name == "tokenChan" || c.name == "sendQueue" ||
+      c.name == "ackQueue" || (c.name == "errs" && c.func == "Client.Connect"))).length = 5 := by
+  decide
+
+/-- **The hand-over of a reply never blocks.** Whenever the read loop is about to put a frame on a caller's reply
+channel (`rd = deliver f c`: the entry was looked up and deleted, the payload is being read), that channel is open and
+EMPTY, so the send on a channel of capacity `replyCap` = 1 is enabled — whether or not the caller is still there
+(it may have left through `callSeeCtx` / `callSeeDone` in between: its `cancel()` found nothing to close). This is the
+invariant `Corr.rdDel`; with an unbuffered channel the step would need the caller as a partner and the read loop would
+be stuck for ever once the caller has left. -/
+theorem deliver_never_blocks {s : St} (h : Reachable s) (f : Frame) (c : Nat) (hr : s.rd = .deliver f c) :
+    (s.callers c).chanLen = 0 ∧ (s.callers c).chanClosed = false ∧ enabled s .rdDeliver = true ∧
+    (step s .rdDeliver).rd = .handle f ∧ (step s .rdDeliver).panicked = false := by
+  have A := (all_reachable h).corr
+  have hd := A.rdDel f c hr
+  have hl : (s.callers c).chanLen = 0 := by simp [Caller.chanLen, hd.1]
+  have he : enabled s .rdDeliver = true := by simp [enabled, hr, hl, replyCap]
+  refine ⟨hl, hd.2.1, he, ?_, ?_⟩
+  · simp [step, he, eff, hr, hd.2.1]
+  · simp [step, he, eff, hr, hd.2.1, setC, A.noPanic]
+
+/-- … in particular after the awaiting caller has been cancelled between the lookup and the hand-over: the caller is
+gone, the read loop still has its enabled step and returns to `idle` within two steps of its own. -/
+theorem deliver_after_cancel {s : St} (h : Reachable s) (f : Frame) (c : Nat) (hr : s.rd = .deliver f c) :
+    let s1 := step s (.callSeeCtx c)
+    s1.rd = .deliver f c ∧ enabled s1 .rdDeliver = true ∧ (step (step s1 .rdDeliver) .rdHandle).rd = .idle := by
+  have h1 : Reachable (step s (.callSeeCtx c)) := Reachable.step _ h
+  have hrd : (step s (.callSeeCtx c)).rd = .deliver f c := by
+    unfold step; split
+    · simp only [eff, leave]; (repeat' split) <;> simp [setC, hr]
+    · exact hr
+  obtain ⟨_, _, he, hh, _⟩ := deliver_never_blocks h1 f c hrd
+  refine ⟨hrd, he, ?_⟩
+  generalize step (step s (.callSeeCtx c)) .rdDeliver = s2 at hh
+  simp [step, enabled, hh, eff]
+
+/-- **The loops' reports never block.** The reports queued in `errs` never outnumber the loops that have exited, and
+there are two loops: a loop that exits always finds room in a channel of capacity `errsCap` = 2, also when Connect has
+already returned and nobody listens. -/
+theorem errs_never_full {s : St} (h : Reachable s) :
+    s.errs.length ≤ exitedCount s ∧ exitedCount s ≤ errsCap ∧
+    (s.rd.isExited = false ∨ s.wr.isExited = false → s.errs.length < errsCap) := by
+  have hi := errsInv_reachable h
+  unfold ErrsInv at hi
+  refine ⟨hi, ?_, ?_⟩
+  · simp only [exitedCount, errsCap]; split <;> split <;> omega
+  · intro hx
+    simp only [exitedCount, errsCap] at hi ⊢
+    rcases hx with hx | hx <;> simp [hx] at hi <;> split at hi <;> omega
+
 /-! ## the session monitor is sound -/
 
 /-- `check-c09` accepts the observation of every reachable state of the model in which an established (negotiated)
@@ -366,5 +429,23 @@ example : (run init demoShutdown).conn = .returned .closed ∧ (run init demoShu
     (run init demoShutdown).negotiated = true := by decide
 example : check09 (obs09Of (run init demoShutdown) [1]) = none := by decide
 example : check09 ⟨[(false, .timeout)], none, false, true, [46]⟩ = some "caller-stuck" := by decide
+
+/-- a KeepAlive crosses the CloseConnection: its ack is queued when the write loop parks, and stays unwritten -/
+def demoCrossing : List Act :=
+  [.connStart, .peerSend { typ := 63, id := 0 }, .connInitial true false, .connReady,
+   .callIssue 1 14 0 false, .callReady 1, .wrPickReq 1,
+   .peerSend { typ := 62, id := 70 }, .rdHeader, .rdDispatch, .rdHandle, .wrWrite]
+example : (run init demoCrossing).wr = .parked ∧ (run init demoCrossing).ackQ = [70] ∧
+    (run init demoCrossing).written.map (·.f.typ) = [14] ∧ enabled (run init demoCrossing) .wrPickAck = false := by decide
+example : Reachable (run init demoCrossing) := reachable_run .init _
+
+/-- the caller is cancelled between the lookup of its reply and the hand-over: the read loop is not blocked -/
+def demoCancelMid : List Act :=
+  [.connStart, .peerSend { typ := 63, id := 0 }, .connInitial true false, .connReady,
+   .callIssue 1 2 1001 false, .callReady 1, .wrPickReq 1, .wrWrite, .callToken 1,
+   .peerSend { typ := 12, id := 0, pay := 5 }, .rdHeader, .rdDispatch, .cancel 1, .callSeeCtx 1]
+example : (run init demoCancelMid).rd = .deliver { typ := 12, id := 0, pay := 5 } 1 ∧
+    ((run init demoCancelMid).callers 1).pc = .done .ctx ∧ enabled (run init demoCancelMid) .rdDeliver = true ∧
+    (run init (demoCancelMid ++ [.rdDeliver, .rdHandle])).rd = .idle := by decide
 
 end LLRP.C09
